@@ -5,7 +5,6 @@ import (
 	"github.com/tuneinsight/lattigo/v6/multiparty"
 	"github.com/tuneinsight/lattigo/v6/ring"
 	"github.com/tuneinsight/lattigo/v6/schemes/bgv"
-	"github.com/tuneinsight/lattigo/v6/utils/sampling"
 )
 
 // C16 (integer scheme): encryption-to-shares, shares-to-encryption, collective refresh and masked transform.
@@ -17,107 +16,6 @@ import (
 // the masked transform f(message) for a linear f, for each of the four decode/encode flag settings, input levels max
 // and 1, 1..3 parties.  Standing assumption of the model: noise inside the budget (the centred integer of a phase is
 // the integer its limbs represent).
-
-const vMaxParties = 3
-
-type vParty struct {
-	Sk  *rlwe.SecretKey
-	E2S EncToShareProtocol
-	S2E ShareToEncProtocol
-	RFP RefreshProtocol
-	MTP MaskedTransformProtocol
-}
-
-type vCtx struct {
-	Params  bgv.Parameters
-	Kgen    *rlwe.KeyGenerator
-	Parties []*vParty
-	SkSum   *rlwe.SecretKey
-	Enc     *rlwe.Encryptor
-	Dec     *rlwe.Decryptor
-	Ecd     *bgv.Encoder
-	CRS     *sampling.KeyedPRNG
-}
-
-func VerifSetup_Ctx() *vCtx {
-	params, err := bgv.NewParametersFromLiteral(bgv.ParametersLiteral{LogN: 4, LogQ: []int{30, 30, 30}, LogP: []int{32}, PlaintextModulus: 97})
-	if err != nil {
-		panic(err)
-	}
-	c := &vCtx{Params: params, Kgen: rlwe.NewKeyGenerator(params), Ecd: bgv.NewEncoder(params)}
-	noise := ring.DiscreteGaussian{Sigma: 8, Bound: 48}
-	for p := 0; p < vMaxParties; p++ {
-		e2s, err := NewEncToShareProtocol(params, noise)
-		if err != nil {
-			panic(err)
-		}
-		s2e, err := NewShareToEncProtocol(params, noise)
-		if err != nil {
-			panic(err)
-		}
-		rfp, err := NewRefreshProtocol(params, noise)
-		if err != nil {
-			panic(err)
-		}
-		mtp, err := NewMaskedTransformProtocol(params, params, noise)
-		if err != nil {
-			panic(err)
-		}
-		c.Parties = append(c.Parties, &vParty{Sk: rlwe.NewSecretKey(params), E2S: e2s, S2E: s2e, RFP: rfp, MTP: mtp})
-	}
-	c.SkSum = rlwe.NewSecretKey(params)
-	c.Enc = rlwe.NewEncryptor(params, c.SkSum)
-	c.Dec = rlwe.NewDecryptor(params, c.SkSum)
-	c.CRS, _ = sampling.NewKeyedPRNG([]byte{'c', 'r', 's'})
-	return c
-}
-
-func vInit(n int) *vCtx {
-	vConfig("algebraic-samplers", "1")
-	c := VerifSetup_Ctx()
-	rQP := c.Params.RingQP()
-	for i := 0; i < n; i++ {
-		c.Kgen.GenSecretKey(c.Parties[i].Sk)
-		rQP.Add(c.SkSum.Value, c.Parties[i].Sk.Value, c.SkSum.Value)
-	}
-	vPRNGKey(c.CRS, "crs")
-	return c
-}
-
-// vEncryptT encrypts the RingT polynomial m (coefficients modulo t) under the ideal secret key at the given level.
-func vEncryptT(c *vCtx, m []uint64, level int) *rlwe.Ciphertext {
-	params := c.Params
-	pT := params.RingT().NewPoly()
-	copy(pT.Coeffs[0], m)
-	pt := bgv.NewPlaintext(params, level)
-	c.Ecd.RingT2Q(level, true, pT, pt.Value)
-	params.RingQ().AtLevel(level).NTT(pt.Value, pt.Value)
-	ct := bgv.NewCiphertext(params, 1, level)
-	if err := c.Enc.Encrypt(pt, ct); err != nil {
-		panic(err)
-	}
-	return ct
-}
-
-// vDecryptT decrypts under the ideal secret key and reduces modulo t (no decoding).
-func vDecryptT(c *vCtx, ct *rlwe.Ciphertext) []uint64 {
-	params := c.Params
-	pt := bgv.NewPlaintext(params, ct.Level())
-	c.Dec.Decrypt(ct, pt)
-	rQ := params.RingQ().AtLevel(ct.Level())
-	buf := rQ.NewPoly()
-	rQ.INTT(pt.Value, buf)
-	pT := params.RingT().NewPoly()
-	c.Ecd.RingQ2T(ct.Level(), true, buf, pT)
-	return pT.Coeffs[0]
-}
-
-func vLevels(params bgv.Parameters) []int {
-	if params.MaxLevel() > 1 {
-		return []int{params.MaxLevel(), 1}
-	}
-	return []int{params.MaxLevel()}
-}
 
 func VerifH_C16_EncToSharesToEnc() {
 	for n := 1; n <= vMaxParties; n += 2 {
@@ -171,18 +69,6 @@ func VerifH_C16_EncToSharesToEnc() {
 		}
 	}
 	vCover("C16-e2s-s2e-reached")
-}
-
-func vItoa(n int) string {
-	if n == 0 {
-		return "0"
-	}
-	s := ""
-	for n > 0 {
-		s = string(rune('0'+n%10)) + s
-		n /= 10
-	}
-	return s
 }
 
 // vLinearF is the user transform of the masked-transform harness: y[i] = 3·x[i] + x[i+1] (indices modulo n), linear
